@@ -471,6 +471,8 @@ class EffectClient(Client):
                 return [s]
             if meth in ('encode', 'format', 'get', 'keys', 'values', 'items') and recv is not None:
                 return [s]
+            if isinstance(fn.value, ast.Constant) and isinstance(fn.value.value, (str, bytes)):
+                return [s]      # a method of a literal ('..'.format(..), b''.join(..)): no effect on the machine
             if recv is not None and recv[0] != 'self':
                 # call on a local / module object: constructor handled in kinds()
                 return [s]
